@@ -141,4 +141,13 @@ def specList (exp : Path → Bool) : List T → Path → List Row
   | t :: ts, p => specOf exp t p ++ specList exp ts p
 end
 
+mutual
+/-- tpStateLevel: how many levels of entries a state has (the colspan of the table) -/
+def depthSt : St → Nat
+  | .node _ kids => 1 + depthList kids
+def depthList : List St → Nat
+  | [] => 0
+  | s :: ss => max (depthSt s) (depthList ss)
+end
+
 end DTML.TreeState
